@@ -5,6 +5,8 @@ Open Scope Z_scope.
 Inductive lbop :=
 | OCall (pend : list Z) (healthy : bool)   (* one complete call; pend = PendingRequests() of every fake client, by identity;
                                               healthy = what isHealthy says about the result (whichever client serves it) *)
+| OBegin (pend : list Z)                    (* a call enters: get() chooses a client and the call blocks inside that client *)
+| OEnd (tid : nat) (healthy : bool)        (* the blocked call number tid (calls are numbered from 0) returns with this verdict *)
 | OAdd                                     (* AddClient(fresh fake): its identity is the next unused number *)
 | ORemove (rm : list nat)                  (* RemoveClients(callback true exactly for these identities) *)
 | OAt (t : Z).                             (* wait until (logical) time t, in ns since the start *)
@@ -13,7 +15,7 @@ Inductive c40case :=
 (* a sequential history on an LBClient constructed with n0 Clients; after every operation what the harness observed *)
 | CHist (n0 : nat) (ops : list (lbop * obs))
 (* a concurrent burst (finished well inside penaltyDuration): per client calls served, unhealthy results, final penalty, final total *)
-| CStress (calls fails pens tots : list Z).
+| CStress (bad : Z) (calls fails pens tots : list Z).   (* bad = panics + results that are neither nil, the fake's error nor ErrNoAvailableClients *)
 
 Definition Ob (ids : list nat) (pens tots : list Z) (choice : option nat) (err : N) : obs := mkObs ids pens tots choice err.
 
@@ -29,6 +31,26 @@ Definition apply_op (s : state) (op : lbop) : option (state * option nat * N) :=
           | [] => None
           end
       | None => None
+      end
+  | OBegin pend =>
+      let ext := map (fun id => nth id pend 0) (do_init s) in
+      match step s (LGet ext) with
+      | Some s' =>
+          match log s' with
+          | EChosen _ c :: _ => Some (s', Some c, 0%N)
+          | ENoClients _ :: _ => Some (s', None, 1%N)
+          | [] => None
+          end
+      | None => None
+      end
+  | OEnd tid healthy =>
+      match get_thread s tid with
+      | Some (PCall c) =>
+          match steps s (finish_labels s tid healthy) with
+          | Some s' => Some (s', Some c, 0%N)
+          | None => None
+          end
+      | _ => None
       end
   | OAdd => match step s LAdd with Some s' => Some (s', None, 0%N) | None => None end
   | ORemove rm =>
@@ -56,7 +78,8 @@ Fixpoint replay (s : state) (ops : list (lbop * obs)) : bool :=
 Definition corr_ok (c : c40case) : bool :=
   match c with
   | CHist n0 ops => replay (init_state n0) ops
-  | CStress calls fails pens tots =>
+  | CStress bad calls fails pens tots =>
+      (bad =? 0) &&
       (* no timer can have fired: every unhealthy result up to maxPenalty is a live penalty, the rest counted as completed *)
       list_eqb Z.eqb pens (map (fun f => Z.min maxPenalty f) fails) &&
       list_eqb Z.eqb tots (map (fun p => fst p - Z.min maxPenalty (snd p)) (combine calls fails))
@@ -77,6 +100,11 @@ Fixpoint judge (prev : obs) (lastfail : list (nat * Z)) (nowt : Z) (ops : list (
           judge cur (match o_choice cur with
                      | Some id => if healthy then lastfail else set_last lastfail id nowt
                      | None => lastfail end) nowt r
+      | OBegin pend => route_ok pend prev cur && judge cur lastfail nowt r
+      | OEnd _ healthy =>
+          judge cur (match o_choice cur with
+                     | Some id => if healthy then lastfail else set_last lastfail id nowt
+                     | None => lastfail end) nowt r
       | OAt t => expiry_ok lastfail t cur && judge cur lastfail t r
       | _ => judge cur lastfail nowt r
       end
@@ -85,5 +113,5 @@ Fixpoint judge (prev : obs) (lastfail : list (nat * Z)) (nowt : Z) (ops : list (
 Definition prop_ok (c : c40case) : bool :=
   match c with
   | CHist n0 ops => judge (mkObs [] [] [] None 0%N) [] 0 ops
-  | CStress calls fails pens tots => forallb (fun p => (0 <=? p) && (p <=? spec_max_penalty)) pens
+  | CStress bad calls fails pens tots => (bad =? 0) && forallb (fun p => (0 <=? p) && (p <=? spec_max_penalty)) pens
   end.
